@@ -11,6 +11,53 @@ from props._world import WorldGen, History
 
 
 # ---------------------------------------------------------------------------
+class StoreWorldGen(WorldGen):
+    """WorldGen whose honest bodies respect a small VBK settlement interval: a VTB only endorses a VBK block
+    that is within vbk_settle of its containing block (otherwise the honest miner itself rejects it)."""
+
+    def honest_block(self, parent, n_atv=None, n_vtb=None, empty_chance=(1, 3)):
+        r = self.r
+        aid = self.new_alt(parent)
+        if r.chance(*empty_chance):
+            self.set_pd(aid)
+            return aid
+        anc = self.ancestry(aid)[:-1]
+        h = self.alt[aid]["height"]
+        cands = [x for x in anc if x != "a0" and h - self.alt[x]["height"] <= self.settle()]
+        atvs = []
+        k = n_atv if n_atv is not None else r.below(3)
+        for _ in range(k):
+            if not cands:
+                break
+            atvs.append(self.make_atv(r.choice(cands), payout=r.choice(["010203", "aabb", "cc"])))
+        vtbs = []
+        k = n_vtb if n_vtb is not None else r.below(2)
+        vs = self.cfg.get("vbk_settle", 400)
+        for _ in range(k):
+            known = sorted(self.alt[parent]["kv"], key=lambda v: int(v[1:]))
+            lo = self.vbk[self.vtip]["height"] + 1 - min(vs - 1, 8)
+            pool = [v for v in known if self.vbk[v]["height"] >= lo]
+            if not pool:
+                break
+            e = r.choice(pool)
+            kb = set(self.alt[parent]["kb"])
+            for w in vtbs:
+                kb |= set(self.vtb[w]["bctx"])
+            last = max(kb, key=lambda b: (self.btc[b]["height"], -int(b[1:])))
+            vtbs.append(self.make_vtb(e, last))
+        self.set_pd(aid, atvs=atvs, vtbs=vtbs)
+        return aid
+
+
+def registry_mismatches(gen, res, ids):
+    """registry lines whose answer differs from the generator's prediction (id assignment out of step)"""
+    bad = []
+    for i, l, e in zip(ids, gen.lines, gen.expect):
+        if e is not None and res.get(i) != e:
+            bad.append((l, e, res.get(i)))
+    return bad
+
+
 class RecHistory(History):
     """History that records the instance operations instead of emitting them"""
 
@@ -48,7 +95,7 @@ def bad_block(gen, hist, parent, kind):
 
 def gen_history(rng, cfg, nsteps, bad_chance=(1, 6), f9_chance=(1, 3)):
     """-> (gen, ops): registry script in gen.lines, recorded instance ops"""
-    g = WorldGen(rng, cfg)
+    g = StoreWorldGen(rng, cfg)
     h = RecHistory(g)
     r = rng
     if r.chance(*f9_chance):
@@ -116,8 +163,16 @@ class Script:
 
 
 def emit_registry(sc, g):
-    for l in g.lines:
-        sc.add(l)
+    ids = [sc.add(l) for l in g.lines]
+    sc.registries = getattr(sc, "registries", []) + [(g, ids)]
+    return ids
+
+
+def check_registries(sc, res):
+    bad = []
+    for g, ids in getattr(sc, "registries", []):
+        bad += registry_mismatches(g, res, ids)
+    return bad
 
 
 def emit_placement(sc, ops, tail, saves, tagbase, name="P", dump="xdump"):
@@ -178,3 +233,102 @@ def canon_dump(s, drop_final=False):
 def diff_dumps(a, b, drop_final=False):
     A, B = canon_dump(a, drop_final), canon_dump(b, drop_final)
     return sorted(A - B), sorted(B - A)
+
+
+# ---------------------------------------------------------------------------
+# C09: twin histories (F finalizes, N never does)
+class TwinHistory(RecHistory):
+    """long, mostly growing history with short forks around the finalization horizon"""
+
+    def __init__(self, gen, maxreorg):
+        RecHistory.__init__(self, gen)
+        self.maxreorg = maxreorg
+        self.best = "a0"       # the generator's idea of the active tip (only a heuristic)
+
+    def chain_back(self, a, k):
+        anc = self.g.ancestry(a)
+        return anc[max(0, len(anc) - 1 - k)]
+
+    def step(self):
+        r = self.r
+        g = self.g
+        k = r.below(100)
+        ids = sorted(g.alt, key=lambda a: int(a[1:]))
+        if k < 50:
+            a = g.honest_block(self.best)
+            self.show(a, order="inorder" if r.chance(2, 3) else "random")
+            self.on("set", a)
+            self.on("payout", a)
+            self.best = a
+            return
+        if k < 68:
+            # fork from a block up to maxreorg+3 behind the tip: above, at and below the final block
+            depth = r.range(1, self.maxreorg + 3)
+            p = self.chain_back(self.best, depth)
+            a = g.honest_block(p)
+            n = r.range(0, 2)
+            for _ in range(n):
+                a = g.honest_block(a)
+            self.show(a)
+            self.on("cmp", a)
+            if r.chance(1, 3):
+                self.on("set", a)
+                self.on("set", self.best)
+            return
+        if k < 80:
+            self.on("cmp", r.choice(ids[-12:] if r.chance(2, 3) else ids))
+            return
+        if k < 86:
+            x = r.choice(ids[-10:])
+            self.on("inv", x)
+            if r.chance(1, 2):
+                self.on("cmp", r.choice(ids[-10:]))
+            self.on("reval", x)
+            self.on("set", self.best)
+            return
+        if k < 90:
+            x = r.choice(ids[-10:])
+            if x != "a0" and x not in g.ancestry(self.best):
+                self.on("rm", x)
+            return
+        if k < 94:
+            self.on("set", r.choice(ids[-10:]))
+            self.on("set", self.best)
+            return
+        self.on("payout", self.best)
+
+
+def gen_twin(rng, cfg, nsteps):
+    g = StoreWorldGen(rng, cfg)
+    h = TwinHistory(g, cfg.get("alt_maxreorg", 8))
+    for _ in range(nsteps):
+        h.step()
+    return g, h.rec
+
+
+def emit_twin(sc, ops, mode, tag, save_every=1, check_every=5):
+    """F = finalizing instance, N = never finalizing (cfg of N: see C09.py, N is created by `instn`).
+    mode: 'fin'    F is a plain instance: after every step saveTrees + public finalizeBlocks()
+          'loaded' F is a loaded instance (save+reload at the start): finalization runs automatically in
+                   overrideTip; saveTrees after every `save_every` steps"""
+    sc.add("inst N")
+    sc.add("inst F")
+    if mode == "loaded":
+        sc.add("on F save")
+        sc.add("on F reload")
+    for i, w in enumerate(ops, 1):
+        sc.add("on F pair N %s" % " ".join(w), (tag, "pair", i, w))
+        if i % save_every == 0:
+            sc.add("on F save")
+            if mode == "fin":
+                sc.add("on F fin")
+        if i % check_every == 0:
+            sc.add("on F paircheck N", (tag, "check", i))
+    sc.add("on F save")
+    if mode == "fin":
+        sc.add("on F fin")
+    sc.add("on F paircheck N", (tag, "check", len(ops)))
+    sc.add("on F final", (tag, "final"))
+    sc.add("on N final", (tag, "finalN"))
+    sc.add("drop F")
+    sc.add("drop N")
